@@ -42,6 +42,13 @@ def translate():
     for nm in ("from_particles", "from_global"):
         m = _ns(get_function(mo, f"ModeStatistics.{nm}")).replace("\n", "")
         f[f"nonfinite_dof_replaced_in_{nm}"] = "mean,covariance,dof=fit_mvstud(u_resampled)if~np.isfinite(dof):dof=dof_fallback" in m
+    # each mode is fitted to the (weighted resample of the) particles of its own cluster
+    fp = _ns(get_function(mo, "ModeStatistics.from_particles")).replace("\n", "")
+    f["each_mode_fitted_to_its_own_cluster"] = all(x in fp for x in (
+        "idx_cluster=np.where(labels==label)[0]", "u_cluster=u[idx_cluster]", "weights_cluster=weights[idx_cluster]",
+        "idx_resample=np.random.choice(n_cluster,size=n_resample,replace=True,p=weights_cluster)", "u_resampled=u_cluster[idx_resample]"))
+    fg = _ns(get_function(mo, "ModeStatistics.from_global")).replace("\n", "")
+    f["global_mode_fitted_to_a_weighted_resample_of_all_particles"] = "u_resampled=u[idx_resample]" in fg and "p=weights" in fg
     for k, v in f.items():
         need(v, fn, k, w)
     text = "(* GENERATED from student.py and modes.py by tools/props/c19.py *)\n" + \
@@ -214,6 +221,41 @@ def check_fallback(run):
                 run.fail("nonfinite-dof-reaches-kernel", f"{nm}: degrees of freedom {ms.degrees_of_freedom} with fit returning {bad}")
 
 
+def check_per_cluster(run, rng):
+    """ModeStatistics.from_particles with several labels: every mode is well-posed and fitted to ITS cluster (location in that
+    cluster's bounding box), whatever the order of the rows."""
+    from tempest.modes import ModeStatistics
+    for t in range(6):
+        nr = np.random.RandomState(rng.randrange(2 ** 31))
+        K, d, n = rng.choice([2, 3]), rng.choice([1, 2, 3]), 40
+        centres = nr.rand(K, d) * 0.8 + 0.1
+        labels = np.repeat(np.arange(K), n)
+        u = np.vstack([c + 0.01 * nr.randn(n, d) for c in centres])
+        perm = nr.permutation(len(u))
+        u, labels = u[perm], labels[perm]
+        w = nr.gamma(1.0, size=len(u))
+        np.random.seed(t)
+        try:
+            ms = ModeStatistics.from_particles(u, w, labels, dof_fallback=7.0)
+        except Exception as e:
+            run.fail("from-particles-raises", f"{type(e).__name__}: {e}", K=K, d=d, data_seed=t)
+            continue
+        run.case(key=("per-cluster", t), nontrivial=True)
+        for k in range(K):
+            pts = u[labels == k]
+            lo, hi = pts.min(axis=0) - 1e-12, pts.max(axis=0) + 1e-12
+            C = ms.covariances[k]
+            if np.any(ms.means[k] < lo) or np.any(ms.means[k] > hi):
+                run.fail("location-outside-own-cluster", f"mode {k}: location {ms.means[k]} outside the bounding box of the particles labelled {k} "
+                         f"[{lo}, {hi}]", K=K, d=d, data_seed=t)
+                break
+            if not (np.allclose(C, C.T, rtol=1e-10, atol=1e-300) and np.min(np.linalg.eigvalsh((C + C.T) / 2)) > 0
+                    and np.max(np.sqrt(np.diag(C))) < 0.2):
+                run.fail("scale-not-of-own-cluster", f"mode {k}: scale matrix {C.tolist()} is not a positive-definite scale of a cluster of spread 0.01",
+                         K=K, d=d, data_seed=t)
+                break
+
+
 def main(tier, seed):
     run = Run(PID, tier, seed)
     run.rule = ("data sets d in {1,2,3,4,6,8}, n from 4d to 300 from Gaussian, t3, skewed (Gamma), contaminated and correlated "
@@ -238,6 +280,7 @@ def main(tier, seed):
         check_fit(run, tier, rng)
         check_step_model(run, tier, rng)
         check_fallback(run)
+        check_per_cluster(run, rng)
     except Exception:
         import traceback
         run.broken.append(("harness-exception", traceback.format_exc()[-1500:]))
